@@ -7,7 +7,7 @@ from framework import REPO, ROOT
 TIE = ["Nsq.Tie.AdminGate", "Nsq.Tie.AdminFanout", "Nsq.Tie.AdminProg", "Nsq.Tie.AdminNotify"]
 PROPS = ["Nsq.Props.C17"]
 STREAMS = [("gate_identity", "^TestVerifE7Identity$"), ("gate_fanout", "^TestVerifE7Fanout$"),
-           ("gate_config", "^TestVerifE7Config$"), ("gate_prog", "^TestVerifE7Prog$")]
+           ("gate_config", "^TestVerifE7Config$"), ("gate_prog", "^TestVerifE7Prog$"), ("gate_strfn", "^TestVerifE7StrFns$")]
 
 
 def unhex(s):
@@ -38,7 +38,13 @@ def parse_op(op):
     return f
 
 
+TOKEN = set("!#$%&'*+-.^_`|~0123456789abcdefghijklmnopqrstuvwxyzABCDEFGHIJKLMNOPQRSTUVWXYZ")
+
+
 def canon(name):
+    """net/textproto CanonicalMIMEHeaderKey as documented: a name with a space or a non-token byte is left alone."""
+    if any(ch not in TOKEN for ch in name):
+        return name
     out, up = [], True
     for ch in name:
         out.append(ch.upper() if up else ch.lower())
@@ -111,10 +117,24 @@ def well_formed(f):
     return None
 
 
+def strfn_oracle(op, impl):
+    """The two library functions against their documentation, in python (no Lean, no Go)."""
+    import urllib.parse
+    _, fn, h = op.split()
+    s, got = unhex(h), unhex(impl)
+    want = canon(s) if fn == "canon" else urllib.parse.quote_plus(s, safe="")
+    if got != want:
+        return "%s(%r) = %r, documented behaviour gives %r" % (
+            "CanonicalMIMEHeaderKey" if fn == "canon" else "url.QueryEscape", s, got, want)
+    return None
+
+
 def property_fails_on(op, impl):
     """Evaluate C17 on one request and the implementation's own answer. Returns text or None."""
     if op.startswith("fan "):
         return prog_oracle(op, impl)
+    if op.startswith("strfn "):
+        return strfn_oracle(op, impl)
     f = parse_op(op)
     a = impl.split()
     if len(a) != 4:
@@ -204,6 +224,7 @@ def fanout_missing(f, reqs, status):
     na = [] if f.get("na", "-") == "-" else f["na"].split(",")
     segs = f["segs"]
     where = "%s /%s" % (f["m"], "/".join(segs))
+    rep = lambda n: nd[n][4] if n in nd and len(nd[n]) > 4 else n   # the address the node's /info claims
     posts = [g for g in got if g.startswith("P:")]
     lk_up = [l for l in lk if l[1] == "1"]
     via_lookupd = set(x for l in lk_up if l[2] != "-" for x in l[2].split("+"))
@@ -218,13 +239,13 @@ def fanout_missing(f, reqs, status):
         need_lookupd = "/topic/tombstone?"
         node = segs[2]
         lookup_ok = node in nd and nd[node][1] == "1"
-        prods = {node} if lookup_ok else set()
+        prods = {rep(node)} if lookup_ok else set()
     else:                                              # delete / pause / unpause / empty
         if lk:
             lookup_ok, prods = bool(lk_up), via_lookupd
         else:
             lookup_ok = any(n in nd and nd[n][1] == "1" for n in na)
-            prods = set(n for n in na if n in nd and nd[n][1] == "1" and nd[n][2] == "1")
+            prods = set(rep(n) for n in na if n in nd and nd[n][1] == "1" and nd[n][2] == "1")
         if f["m"] == "DELETE":
             need_lookupd = "/delete?"
     prods = set(p for p in prods if p in nd)           # an address nobody listens on cannot record anything
@@ -279,13 +300,27 @@ def prog_oracle(op, impl):
             return (sym in lkd and lkd[sym][1] == "0") or (sym in nd and nd[sym][1] == "0")
         return (sym in lkd and lkd[sym][3] == "0") or (sym in nd and nd[sym][3] == "0")
     nfail = sum(1 for r in recs if failed(r))
-    dead_possible = any("X0" in l[2].split("+") for l in lk if l[2] != "-") or f.get("node") == "X0"
-    if len(set(recs)) != len(recs):
-        dup = sorted(set(r for r in recs if recs.count(r) > 1))
-        return "%s: contacted more than once: %s (recorded: %s)" % (where, ", ".join(dup), a[2])
+    rep = lambda n: nd[n][4] if n in nd and len(nd[n]) > 4 else n   # the address the node's /info claims
+    na0 = [] if f.get("na", "-") == "-" else f["na"].split(",")
+    # requests that fail without being recorded (nobody listens on X0): at most one per command through a
+    # nsqlookupd report, one per configured nsqd whose /info claims X0, one for a tombstone of / through X0
+    dead = (1 if any("X0" in l[2].split("+") for l in lk if l[2] != "-") else 0) + \
+        (sum(1 for n in na0 if rep(n) == "X0") if not lk else 0) + \
+        (1 if f.get("node") == "X0" or (f.get("node", "-") != "-" and rep(f["node"]) == "X0") else 0)
+    dead_possible = dead > 0
+    # the same command twice at one address is what the code does when two configured nsqds claim that address
+    mult = {}
+    if not lk:
+        for n in na0:
+            if n in nd and nd[n][1] == "1" and nd[n][2] == "1":
+                mult[rep(n)] = mult.get(rep(n), 0) + 1
+    for r in set(recs):
+        allowed = mult.get(r[2:].split("/", 1)[0], 1) if r.startswith("P:") else 1
+        if recs.count(r) > max(1, allowed):
+            return "%s: contacted more than once: %s x%d (recorded: %s)" % (where, r, recs.count(r), a[2])
     if res == "none" and nfail > 0:
         return "%s returned nil although %d request(s) failed: %s" % (where, nfail, ", ".join(r for r in recs if failed(r)))
-    if res == "partial" and (errs < nfail or errs > nfail + (1 if dead_possible else 0)):
+    if res == "partial" and (errs < nfail or errs > nfail + dead):
         return "%s reports %d error(s) but %d recorded request(s) failed: %s" % (
             where, errs, nfail, ", ".join(r for r in recs if failed(r)))
     if res == "partial" and errs == 0:
@@ -301,7 +336,7 @@ def prog_oracle(op, impl):
             prods = set(x for l in lk if l[1] == "1" and l[2] != "-" for x in l[2].split("+"))
         else:
             na = [] if f.get("na", "-") == "-" else f["na"].split(",")
-            prods = set(n for n in na if n in nd and nd[n][1] == "1" and nd[n][2] == "1")
+            prods = set(rep(n) for n in na if n in nd and nd[n][1] == "1" and nd[n][2] == "1")
         for p_ in sorted(prods):
             if p_ in nd and not any(r.startswith("P:%s%s?" % (p_, NSQD_CMD[kind])) for r in posts):
                 return "%s: nsqd %s, reported as a producer, never received %s (recorded: %s)" % (
@@ -409,7 +444,7 @@ def run(ctx):
                 ctx.log("corpus regression: `%s`\n  recorded=%s\n     model=%s" % (o[:300], want, got))
                 corr_broken.append("corpus C17/%s line" % os.path.basename(cp))
         ctx.corr["corpus_lines"] = ctx.corr.get("corpus_lines", 0) + len(cops)
-    binp = ctx.go_test_binary("nsqadmin", ["e7/gate_test.go", "e7/prog_test.go"], "e7gate")
+    binp = ctx.go_test_binary("nsqadmin", ["e7/gate_test.go", "e7/prog_test.go", "e7/strfn_test.go"], "e7gate")
     if not binp:
         ctx.broken_ties.append("harness e7/gate_test.go does not compile against the current tree")
         corr_broken.append("harness build")
@@ -490,11 +525,15 @@ def key_of(op):
     """Finding key: the route shape of a gate request, the method of a direct ClusterInfo call."""
     if op.startswith("fan "):
         return "fanout:" + dict(t.partition("=")[::2] for t in op.split()[1:]).get("kind", "?")
+    if op.startswith("strfn "):
+        return "strfn:" + op.split()[1]
     f = parse_op(op)
     return "gate:%s:/%s" % (f["m"], "/".join(pattern_of(f["segs"])))
 
 
 def describe_op(op):
+    if op.startswith("strfn "):
+        return "%s(%r)" % (op.split()[1], unhex(op.split()[2]))
     if op.startswith("fan "):
         f = dict(t.partition("=")[::2] for t in op.split()[1:])
         return "ClusterInfo %s topic=%s channel=%s node=%s, stubs: lookupds %s, configured nsqds %s, nsqds %s" % (
